@@ -17,3 +17,209 @@ pub(crate) fn dependence(p: usize, v: [u16; MAX_THREADS]) {
     let a = s.last_dependent_access().unwrap();
     assert!(a.path_id() == p && vv_raw(a.version()) == v);
 }
+
+// ------------------------------------------------------------ C08: one-step simulation of Notify and park
+
+use crate::rt::execution::verif as ev;
+use crate::rt::object::verif as ov;
+use crate::rt::scheduler::verif as sched;
+use crate::rt::synchronize::verif as sv;
+use crate::rt::thread::verif as tv;
+
+type Raw = [u16; MAX_THREADS];
+
+fn eq(a: &Raw, b: &Raw) -> bool {
+    le(a, b) && le(b, a)
+}
+
+/// World: 3 threads, one Notify (object 0).  Non-acting threads are symbolic:
+/// role 0 unrelated runnable, 1 blocked elsewhere, 2 waiting on this Notify
+/// (pending operation on it, Blocked -- no notification stored).
+fn world(acting: usize, notified: bool, spurious: bool, did_spur: bool) -> (crate::rt::Execution, Notify, [u8; 3], Raw) {
+    let mut e = ev::mk_exec(3, 2, None);
+    tv::activate(&mut e.threads, acting);
+    let sync: Raw = kani::any();
+    let st = State { spurious, did_spur, seq_cst: kani::any(), notified, last_access: None, synchronize: sv::mk(sync) };
+    let r = e.objects.insert(st);
+    let mut roles = [0u8; 3];
+    let mut t = 0;
+    while t < 3 {
+        let c: Raw = kani::any();
+        tv::th(&mut e.threads, t).causality = vv(c);
+        if t != acting {
+            let role: u8 = kani::any();
+            kani::assume(role <= 2);
+            if notified {
+                // a stored notification means nobody is blocked waiting for it
+                kani::assume(role != 2);
+            }
+            roles[t] = role;
+            let (code, opn) = match role {
+                0 => (0, None),
+                1 => (2, None),
+                _ => (2, Some(ov::op(0, crate::rt::object::Action::Opaque))),
+            };
+            tv::th(&mut e.threads, t).state = tv::state_from_code(code);
+            tv::th(&mut e.threads, t).operation = opn;
+        }
+        t += 1;
+    }
+    (e, Notify { state: r }, roles, sync)
+}
+
+fn code_of(e: &crate::rt::Execution, t: usize) -> u8 {
+    tv::state_code(&tv::th_ref(&e.threads, t).state)
+}
+
+fn clock(e: &crate::rt::Execution, t: usize) -> Raw {
+    vv_raw(&tv::th_ref(&e.threads, t).causality)
+}
+
+vharness! {
+    /// @prop C08,C05 @tier quick @mode fast @cost 2 @funcs Notify::notify,Ref::branch_opaque,Synchronize::sync_store,Thread::unpark,Set::split_active @bounds 3 threads, 1 Notify without stored notification, other threads symbolic (unrelated / blocked elsewhere / waiting on it), all clock values, notifier = thread 1
+    /// notify: the notification is stored, the notifier's view is released into the Notify, every thread blocked in wait() on it becomes runnable and inherits the notifier's view; threads blocked elsewhere stay blocked.
+    #[cfg_attr(kani, kani::unwind(8))]
+    fn notify_wakes_waiters_t1() {
+        let acting = 1;
+        let (mut e, n, roles, sync) = world(acting, false, kani::any(), kani::any());
+        let c = [clock(&e, 0), clock(&e, 1), clock(&e, 2)];
+        sched::enter(&mut e, || n.notify(Location::disabled()));
+        let st = n.state.get(&e.objects);
+        assert!(st.notified);
+        assert!(eq(&sv::raw(&st.synchronize), &max_raw(&sync, &c[acting])));
+        assert!(eq(&clock(&e, acting), &c[acting]));
+        let mut t = 0;
+        while t < 3 {
+            if t != acting {
+                match roles[t] {
+                    2 => {
+                        assert!(code_of(&e, t) == 0);
+                        assert!(eq(&clock(&e, t), &max_raw(&c[t], &c[acting])));
+                    }
+                    1 => {
+                        assert!(code_of(&e, t) == 2);
+                        assert!(eq(&clock(&e, t), &c[t]));
+                    }
+                    _ => {
+                        assert!(code_of(&e, t) == 0);
+                        assert!(eq(&clock(&e, t), &c[t]));
+                    }
+                }
+            }
+            t += 1;
+        }
+        assert!(sched::switches() == 0);
+        kani::cover!(roles[0] == 2 && roles[2] == 2, "two waiters");
+        kani::cover!(roles[0] == 2 && roles[2] == 1, "one waiter, one thread blocked elsewhere");
+        std::mem::forget(e);
+    }
+}
+
+vharness! {
+    /// @prop C08 @tier quick @mode fast @cost 2 @funcs Notify::wait,State::might_spur,Path::branch_spurious,Ref::branch_opaque,Synchronize::sync_load @bounds 3 threads, Notify with a stored notification, spurious flag symbolic (first exploration of the spurious point: not spurious), waiter = thread 0
+    /// a notification issued before the wait is not lost: wait() on a notified Notify returns without blocking, consumes the notification exactly once and acquires the notifier's view.
+    #[cfg_attr(kani, kani::unwind(8))]
+    fn notify_wait_consumes_stored_t0() {
+        let acting = 0;
+        let spurious: bool = kani::any();
+        let did: bool = kani::any();
+        let (mut e, n, _roles, sync) = world(acting, true, spurious, did);
+        let c = [clock(&e, 0), clock(&e, 1), clock(&e, 2)];
+        sched::enter(&mut e, || n.wait(Location::disabled()));
+        let st = n.state.get(&e.objects);
+        assert!(!st.notified);
+        assert!(st.did_spur == did);
+        assert!(eq(&clock(&e, acting), &max_raw(&c[acting], &sync)));
+        assert!(eq(&clock(&e, 1), &c[1]) && eq(&clock(&e, 2), &c[2]));
+        assert!(sched::switches() == 0);
+        assert!(code_of(&e, acting) == 0);
+        kani::cover!(spurious && !did, "a spurious-wakeup decision point was recorded");
+        kani::cover!(!le(&sync, &c[acting]), "the waiter learns the notifier's view");
+        std::mem::forget(e);
+    }
+}
+
+vharness! {
+    /// @prop C08,C05 @tier quick @mode fast @cost 2 @funcs Ref::branch_acquire,Execution::schedule @bounds 3 threads, Notify without stored notification and no spurious wake-up left, waiter = thread 2, thread 0 runnable
+    /// wait() without a notification blocks: the caller is Blocked with a pending operation on the Notify until notify() (first half of the real wait through the real branch_acquire/schedule).
+    #[cfg_attr(kani, kani::unwind(8))]
+    fn notify_wait_blocks_t2() {
+        let acting = 2;
+        let (mut e, n, roles, _sync) = world(acting, false, false, false);
+        tv::th(&mut e.threads, 0).state = tv::state_from_code(0);
+        tv::th(&mut e.threads, 0).operation = None;
+        let (notified, might) = sched::enter(&mut e, || {
+            let (a, b) = crate::rt::execution(|ex| {
+                let s = n.state.get(&ex.objects);
+                (s.notified, s.might_spur())
+            });
+            if !a {
+                n.state.branch_acquire(true, Location::disabled());
+            }
+            (a, b)
+        });
+        assert!(!notified && !might);
+        assert!(code_of(&e, acting) == 2);
+        assert!(sched::switches() == 1);
+        let next = tv::active_index(&e.threads);
+        assert!(next == Some(0) || (next == Some(1) && roles[1] == 0));
+        std::mem::forget(e);
+    }
+}
+
+vharness! {
+    /// @prop C08 @tier quick @mode fast @cost 2 @funcs Notify::wait,Path::branch_spurious,rt::yield_now,Thread::set_yield @bounds Notify with spurious wake-ups enabled, the spurious decision point replayed with value `true`, waiter = thread 0, thread 1 runnable
+    /// the single modelled spurious return: wait() returns without consuming anything, marks the Notify so that no second spurious return is offered, and the waiter yields.
+    #[cfg_attr(kani, kani::unwind(8))]
+    fn notify_wait_spurious_once_t0() {
+        let acting = 0;
+        let notified: bool = kani::any();
+        let (mut e, n, _roles, sync) = world(acting, notified, true, false);
+        tv::th(&mut e.threads, 1).state = tv::state_from_code(0);
+        tv::th(&mut e.threads, 1).operation = None;
+        // the DFS has advanced the spurious decision of this wait() to `true`
+        crate::rt::path::verif::seed_spurious_true(&mut e.path);
+        let c0 = clock(&e, 0);
+        sched::enter(&mut e, || n.wait(Location::disabled()));
+        let st = n.state.get(&e.objects);
+        assert!(st.did_spur && !st.might_spur());
+        assert!(st.notified == notified);
+        assert!(eq(&sv::raw(&st.synchronize), &sync));
+        assert!(eq(&clock(&e, 0), &c0));
+        // the spuriously woken thread yielded to the runnable one
+        assert!(sched::switches() == 1);
+        assert!(tv::active_index(&e.threads) == Some(1));
+        kani::cover!(notified, "spurious return although a notification is stored");
+        std::mem::forget(e);
+    }
+}
+
+vharness! {
+    /// @prop C08,C05 @tier quick @mode fast @cost 2 @funcs rt::park,Thread::set_runnable,Thread::set_blocked,Execution::schedule @bounds 3 threads, parking thread 1 with symbolic park token, thread 0 runnable
+    /// park: with a stored token it returns immediately and consumes the token (no context switch); without a token the thread blocks and another runnable thread is scheduled.
+    #[cfg_attr(kani, kani::unwind(8))]
+    fn park_token_t1() {
+        let acting = 1;
+        let mut e = ev::mk_exec(3, 1, None);
+        tv::activate(&mut e.threads, acting);
+        let token: bool = kani::any();
+        tv::th(&mut e.threads, acting).state = tv::state_from_code(if token { 1 } else { 0 });
+        let other: u8 = kani::any();
+        kani::assume(other == 0 || other == 2);
+        tv::th(&mut e.threads, 2).state = tv::state_from_code(other);
+        sched::enter(&mut e, || crate::rt::park(Location::disabled()));
+        if token {
+            assert!(code_of(&e, acting) == 0);
+            assert!(sched::switches() == 0);
+            assert!(tv::active_index(&e.threads) == Some(acting));
+        } else {
+            assert!(code_of(&e, acting) == 2);
+            assert!(sched::switches() == 1);
+            assert!(tv::active_index(&e.threads) == Some(0));
+        }
+        assert!(code_of(&e, 2) == other);
+        kani::cover!(token, "token consumed");
+        kani::cover!(!token, "blocks");
+        std::mem::forget(e);
+    }
+}
